@@ -131,10 +131,13 @@ def random_cfgs(tier, base_id, algos=("SOO", "StoSOO", "DOO"), neg=False, allq=F
             if algo == "DOO" and rnd.random() < 0.5:
                 prm["delta_kind"] = rnd.choice(["pow2", "lin"])
             i += 1
-            pat = rnd.choice(["g01", "peak", "flat", "tied", "gneg", "const"])
+            pat = rnd.choice(["g01", "peak", "flat", "tied", "gneg", "const", "ints"])
+            if algo == "StoSOO" and rep % 5 == 4:
+                prm["h_max"] = rnd.choice([1, 2, 3])     # a cap the run reaches (the run then ends with the C01 input class "cap too small")
+                prm["k"] = rnd.choice([1, 2, 3])
             shift = rnd.choice([0, 0, -1, -2]) if not neg else rnd.choice([-1, -2, -3])
             cfgs.append({"id": i, "algo": algo, "kind": kind, "K": Kk, "D": D, "box": box, "n": n, "T": n if rnd.random() < 0.8 else rnd.randint(3, n), "prm": prm, "pattern": pat, "shift": shift,
-                         "seed": rnd.randrange(1 << 30), "queries": sorted(rnd.sample(range(3, n), 3)) if rep % 3 == 0 else (list(range(n)) if allq and rep % 3 == 1 else []), "rtype": [None, "f32", "f64", "i64", "int", None][rep % 6]})
+                         "seed": rnd.randrange(1 << 30), "queries": sorted(rnd.sample(range(3, n), 3)) if rep % 3 == 0 else (list(range(n)) if allq and rep % 3 == 1 else []), "rtype": [None, "f32", "f64", "i64", "int", None][rep % 6] if pat != "ints" else ["int", "i64", "int", None][rep % 4]})
     return cfgs
 
 
